@@ -296,7 +296,7 @@ def gen_formats(I, ctx):
             for pcm in pcms:
                 out.append(({"vp": v, "pcm": pcm, "near": int(bvf)}, bucket))
         # several groups at once
-        for k in range(ctx.pick(12, 60)):
+        for k in range(ctx.pick(8, 60)):
             v = list(base)
             fs = rng.sample(singles[1:], rng.randint(2, 6))
             for _, f in fs:
@@ -552,11 +552,11 @@ def run(ctx):
     if any(len(col) == 0 for col in I.lc.LEVEL_CONSTRAINTS):
         ctx.note("the level table contains an empty ('catch all') column, which the model does not cover")
     specs = gen_formats(I, ctx) + gen_level_formats(I, ctx)
-    ncorr = ctx.pick(500, 4000)
+    ncorr = ctx.pick(300, 4000)
     corr_idx = set(ctx.rng.sample(range(len(specs)), min(ncorr, len(specs))))
     # always include the level cases in the correspondence
     for i, (s, b) in enumerate(specs):
-        if b.startswith("level-") and len(corr_idx) < ncorr + 300:
+        if b.startswith("level-") and len(corr_idx) < ncorr + 150:
             corr_idx.add(i)
     max_headers = ctx.pick(16, 400)
     jobs = [(s, max_headers, i in corr_idx) for i, (s, b) in enumerate(specs)]
